@@ -103,6 +103,7 @@ class Acc:
         self.e2 = []
         self.e3 = []
         self.known = []
+        self.vacuity = []        # coverage guards that did not come true (decided in finish())
 
     def add_e1(self, name, r, expect_error=False):
         self.states += r["distinct"]
@@ -204,7 +205,7 @@ def e2_product(run, acc, inst, cfgs, extra_ops=(), observers=(), budget=3000000,
         if j["samples"]:
             acc.samples.append({"engine": "E2", "instance": rec["instance"], "n": n, "cap": cap, "path": j["samples"][-1]})
         if need_gc and j["collecting_transitions_executed"] == 0:
-            raise ToolError(f"vacuity: no collecting transition executed in instance {inst}")
+            acc.vacuity.append(f"no collecting transition executed in instance {inst}")
         if j["witnesses"]:
             v = vlib.judge(run, j["witness_file"], n)
             acc.traces += len(j["witnesses"])
@@ -447,7 +448,7 @@ def plan_twin(run, prop, tier):
         e2_product(run, acc, "F4b", [(2, 4, 0)], extra_ops=(op,), observers=obs)
     for r in acc.e2:
         if r["ops"].get(op, 0) == 0:
-            raise ToolError(f"vacuity: no {op} transition executed")
+            acc.vacuity.append(f"no {op} transition executed")
     e3_drive(run, acc, twin_plan(tier, vlib.seed()), label="E3 twins")
     return acc
 
@@ -472,7 +473,7 @@ def plan_c13(run, prop, tier):
         e2_product(run, acc, "A3", [(1, 3, 0)], extra_ops=("slice",))
     for r in acc.e2:
         if r["ops"].get("slice", 0) == 0:
-            raise ToolError("vacuity: no slice transition executed")
+            acc.vacuity.append("no slice transition executed")
     e3_drive(run, acc, slice_plan(tier, vlib.seed()), label="E3 slices")
     return acc
 
@@ -505,7 +506,7 @@ def e4_merge(run, acc, name, cfg, runs, stride=1):
         if j["samples"]:
             acc.samples.append({"engine": "E2 merge scenarios", "scenario": j["samples"][0]})
         if j["executed"] == 0:
-            raise ToolError("vacuity: no merge scenario executed")
+            acc.vacuity.append("no merge scenario executed")
         if j["witnesses"]:
             v = vlib.judge(run, j["witness_file"], n)
             acc.traces += len(j["witnesses"])
@@ -651,7 +652,7 @@ def plan_export(run, prop, tier):
         e2_product(run, acc, "G4", [(2, 4, 0)], extra_ops=extra, observers=obs, need_gc=False, budget=20000000)
     for r in acc.e2:
         if not r.get("crashed") and not r.get("observer_checks"):
-            raise ToolError("vacuity: no observer check executed")
+            acc.vacuity.append("no observer check executed")
     # E3: the same observers every 25 calls of long histories at the real limits (N-label vertices, 14 groups, capacity 256)
     s = vlib.seed()
     op = [dict(profile="observe", n=2, cap=24, steps=2500, seed=s * 100 + 81, window=10),
@@ -661,7 +662,8 @@ def plan_export(run, prop, tier):
           dict(profile="fan", n=16, cap=64, steps=1200, seed=s * 100 + 84, window=24, observe=30),
           dict(profile="high", n=16, cap=256, steps=1200, seed=s * 100 + 85, window=30, observe=30),
           dict(profile="groups14", n=2, cap=64, steps=1200, seed=s * 100 + 86, window=24, observe=30),
-          dict(profile="cycle", n=1, cap=64, steps=1500, seed=s * 100 + 87, window=10, observe=40)]     # N = 1: chains, paths 18 vertices deep
+          dict(profile="cycle", n=1, cap=64, steps=1500, seed=s * 100 + 87, window=10, observe=40),     # N = 1: chains, paths 18 vertices deep
+          dict(profile="crowd", n=2, cap=300, steps=420, seed=s * 100 + 88, window=300, observe=60)]    # 297 vertices present at once
     if tier == "thorough":
         op += [dict(profile="observe", n=n, cap=cap, steps=8000, seed=s * 1000 + 800 + i, window=w) for i, (n, cap, w) in enumerate([(1, 12, 8), (3, 32, 14), (4, 64, 24), (8, 128, 40), (16, 64, 60)])]
     e3_drive(run, acc, op, label="E3 observers")
@@ -1061,6 +1063,12 @@ ASSUME_COMMON = [
 
 def finish(run, prop, tier, acc, wall):
     import re as _re
+    # a coverage guard that did not come true is a tool error ONLY when nothing was reported: code that misbehaves so badly that
+    # (say) nothing is ever collected has its mismatches judged and reported; the guard must not turn that into "exit 2"
+    if acc.vacuity and not acc.fails:
+        raise ToolError("vacuity: " + "; ".join(acc.vacuity))
+    if acc.vacuity:
+        acc.notes["coverage_guards_not_met_while_failures_were_reported"] = acc.vacuity
     for f in acc.fails:
         m = _re.match(r"KNOWN:([\w-]+): (.*)", f.get("what", ""))
         if m:
